@@ -654,6 +654,15 @@ func c15Cases(tier string, seed int64) []core.Case {
 			}})
 		}
 	}
+	// a plain-9P2000 client of a server that also offers 9P2000.u
+	for _, n := range []int{2, 50} {
+		n := n
+		cases = append(cases, core.Case{ID: fmt.Sprintf("dir/entries=%d/plain-client-of-dotu-server", n), Run: func(ctx *core.Ctx) core.Result {
+			serverOffersDotu = true
+			defer func() { serverOffersDotu = false }()
+			return c15Run(ctx, n, false, false)
+		}})
+	}
 	return cases
 }
 
@@ -952,6 +961,49 @@ func c15Run(ctx *core.Ctx, nent int, dotu bool, thorough bool) core.Result {
 					fail("small-count-not-refused", fmt.Sprintf("directory read with count %d (< first entry %d) answered %v instead of an error", c, first, rp), nil)
 				}
 				res.Sig(fmt.Sprintf("small|%d|%v|%d|%d", nent, dotu, msize, c))
+			}
+			// … and in the middle of a listing: after k whole entries, a count one byte short of entry k+1 (and 0, 1)
+			full := rr.rpc(&wire.Msg{Type: wire.Tread, Fid: fidn, Offset: 0, Count: uint32(L)})
+			if full != nil && full.Type == wire.Rread && len(full.Data) > 0 {
+				var sizes []int
+				for b := full.Data; len(b) > 0; {
+					_, used, err := wire.DecodeStat(b, dotu)
+					if err != nil {
+						break
+					}
+					sizes = append(sizes, used)
+					b = b[used:]
+				}
+				tried := 0
+				off := 0
+				for k := 0; k+1 < len(sizes) && tried < 12; k++ {
+					off += sizes[k]
+					if k%3 != 0 && sizes[k+1] <= sizes[k] {
+						continue
+					}
+					tried++
+					// position the listing at the boundary after entry k by reading exactly up to it from 0
+					head := rr.rpc(&wire.Msg{Type: wire.Tread, Fid: fidn, Offset: 0, Count: uint32(off)})
+					if head == nil || head.Type != wire.Rread || len(head.Data) != off {
+						break
+					}
+					for _, c := range []int{sizes[k+1] - 1, 1, 0} {
+						if c >= sizes[k+1] || c < 0 {
+							continue
+						}
+						rp := rr.rpc(&wire.Msg{Type: wire.Tread, Fid: fidn, Offset: uint64(off), Count: uint32(c)})
+						res.Evals++
+						if rp == nil || rp.Type != wire.Rerror {
+							what := "nothing"
+							if rp != nil {
+								what = fmt.Sprintf("%s with %d bytes", wire.TypeName(rp.Type), len(rp.Data))
+							}
+							fail("small-count-not-refused;mid-listing", fmt.Sprintf("directory read at offset %d (after %d whole entries) with count %d, the next entry needs %d: answered %s instead of an error", off, k+1, c, sizes[k+1], what), nil)
+							break
+						}
+					}
+					res.Sig(fmt.Sprintf("small-mid|%d|%v|%d|%d", nent, dotu, msize, k))
+				}
 			}
 			rr.rpc(&wire.Msg{Type: wire.Tclunk, Fid: fidn})
 		}
